@@ -28,6 +28,8 @@ type Sim struct {
 	Failures []string // discipline violations, goroutine panics
 	Timeout  time.Duration
 	chans    map[uintptr]*chanInfo
+	clock    time.Duration // simulated time
+	ctxs     []*simCtx
 }
 
 type g struct {
